@@ -169,15 +169,44 @@ def check(ix, rep):
             rep.fail('R-OPSUM', f.module.rel, '%s.update' % c.name, 'dense-online:%s' % nc, 'operator %s: %s' % (nc, opref.diff(nf, want) if nf[0] != 'unknown' else nf[1]), f.node.lineno)
     rep.floor('dense online operators summarised', decided, 18)
     # 3b. leaves and the comparison table
-    nleaf = 0
+    # constants: the signal [[0, v], [inf, v]] already extends to infinity, so it may reach the operand buffers only once -- with the first update
     um = ix.module('rtamt.semantics.abstract_dense_time_online_interpreter')
-    for cname, uc in sorted(um.classes.items()):
-        f = uc.methods.get('visitConstant')
-        if f is not None:
-            nleaf += 1
-            rep.analysed(f)
-            densesum.check_constant_leaf(rep, f, '%s.val' % f.node.args.args[1].arg, 'dense-online:Constant:%s' % cname)
-    rep.floor('dense-time online constant leaves', nleaf, 2)
+    uv = um.classes.get('DenseTimeOnlineUpdateVisitor')
+    f = uv.methods.get('visitConstant') if uv is not None else None
+    if f is None:
+        rep.error('DenseTimeOnlineUpdateVisitor.visitConstant vanished')
+    else:
+        rep.analysed(f)
+        slot = 'dense-online:Constant'
+        rets = [r for r in ast.walk(f.node) if isinstance(r, ast.Return) and r.value is not None]
+        builds = [n for n in ast.walk(f.node) if isinstance(n, ast.List) and n.elts and all(isinstance(e, ast.List) and len(e.elts) == 2 for e in n.elts)]
+        delegates = [c for c in ast.walk(f.node) if isinstance(c, ast.Call) and isinstance(c.func, ast.Attribute) and c.func.attr == 'update'
+                     and 'online_operator_dict[%s.name]' % f.node.args.args[1].arg in ast.unparse(c.func.value).replace(' ', '')]
+        cop = ops.get('Constant')
+        if builds and not delegates:
+            rep.fail('R-STATE', f.module.rel, f.qual, slot, 'the update visitor builds the constant signal %s on every update: from the second update on, binary operations append a sample at '
+                     'time 0 behind their buffered [inf, v] -- time-stamps go backwards (`out = (2.0 + 1.0) <= a` fed in two updates raises "Unexpected case in the intersection", in one '
+                     'update it does not)' % ast.unparse(builds[0]), builds[0].lineno)
+        elif delegates and cop is not None:
+            g = cop.methods.get('update')
+            rep.analysed(g)
+            densesum.check_constant_leaf(rep, g, 'self.val', slot)
+            # emitted under a flag that the emitting branch clears; nothing afterwards
+            ok = False
+            for st in ast.walk(g.node):
+                if isinstance(st, ast.If) and isinstance(st.test, ast.Attribute) and isinstance(st.test.value, ast.Name) and st.test.value.id == 'self':
+                    flag = st.test.attr
+                    emits = any(isinstance(n, ast.List) and n.elts and isinstance(n.elts[0], ast.List) for s2 in st.body for n in ast.walk(s2))
+                    clears = any(isinstance(s2, ast.Assign) and ast.unparse(s2.targets[0]) == 'self.%s' % flag and isinstance(s2.value, ast.Constant) and s2.value.value is False for s2 in st.body)
+                    empty_else = any(isinstance(n, (ast.List, ast.Call)) and ast.unparse(n) in ('[]', 'list()') for s2 in st.orelse for n in ast.walk(s2))
+                    if emits and clears and empty_else:
+                        ok = True
+            if ok:
+                rep.ok('R-STATE', g.module.rel, g.qual, slot + ':once', 'the constant signal is handed over with the first update only (flag cleared in the emitting branch, [] afterwards)', g.node.lineno)
+            else:
+                rep.fail('R-STATE', g.module.rel, g.qual, slot + ':once', 'the constant operation does not stop emitting its signal after the first update', g.node.lineno)
+        else:
+            rep.error('%s (%s): constant leaf of the dense online update visitor is in no recognised form' % (f.where, f.qual))
     c = ops.get('Predicate')
     if c is not None:
         from sa.props import c07 as _c07, c04 as _c04
